@@ -142,6 +142,17 @@ func (a *Act) doCall(st *State, com *ssa.CallCommon, pos tokenPos, site ssa.Valu
 }
 
 func (a *Act) callFn(st *State, callee *ssa.Function, args []Val, env []Val, pos tokenPos, sig *types.Signature) Val {
+	// static calls named in the callback clause are recorded in the ghost trace as well (and then executed)
+	if fc := a.top.fc; fc != nil && fc.CallbackRank != nil && !a.spec && a.depth == 0 {
+		if _, traced := fc.CallbackRank[callee.Name()]; traced {
+			var targs []Val
+			targs = append(targs, args...)
+			if callee.Signature.Recv() != nil && len(targs) > 0 {
+				targs = targs[1:] // arguments without the receiver, like for interface calls
+			}
+			a.traceEvent(st, fc, callee.Name(), targs, pos, Val{}, types.NewSignatureType(nil, nil, nil, nil, nil, false))
+		}
+	}
 	key := intrinsicKey(callee)
 	if in, ok := intrinsics[key]; ok {
 		a.u.Trusted["intrinsic "+key] = true
